@@ -13,9 +13,11 @@ HOOKS = dict(
     add_only=True,
 )
 
+CHECKS_IDS = ["C06", "C07"]
+
 ENGINES = [
     dict(name="mc", path="/verif/mc",
-         serves_properties=["C06"],
+         serves_properties=sorted(CHECKS_IDS),
          kind_free_text="hand-written explicit-state / bounded-exhaustive explorer in Python: every case of a finite, "
                         "completely enumerated space of DSL programs / histories / configurations is executed on the "
                         "real library and judged against an independent reference model (mc/refalg.py)"),
@@ -37,9 +39,21 @@ CHECKS = {
         note="Bound: operator nodes <= 3 (quick) / <= 4 with scalars {0,-1,2,1/2} (thorough). Float rounding is "
              "bounded by a running error analysis, not by a loose tolerance. Trusts mc/refalg.py (40 lines).",
     ),
+    "C07": dict(
+        category="model_checking",
+        technique="explicit enumeration of all oracle/gradient/value/stationary/fixed-point/prox call histories up to "
+                  "depth 3 (4 on a reduced alphabet) on 9 composite shapes, replayed on the real Function code, "
+                  "invariants checked in every reached state",
+        text="Every history over the call alphabet x {terms, sum} x 5 point kinds up to the depth bound is replayed on "
+             "a fresh PEP; since every prefix is itself enumerated, invariants I1-I6 (one value per point, one gradient "
+             "per point for differentiable functions, composite sample = weighted sum of term samples, stationary "
+             "points, decomposition-equality of points, freshness) are evaluated in every reachable state.",
+        note="Bound: depth 2 full / 3 reduced alphabet (quick), 3 / 4 (thorough); weights from {1,-1,2,0,cancelling,1/3*3}. "
+             "Oracle is canonical-form comparison in mc/refalg.py.",
+    ),
 }
 
 _PENDING = "check not built yet in this session (planned, see DESIGN.md section 4); not claimed until it has run clean and caught a mutant"
 NOT_APPLICABLE = {k: _PENDING for k in
-                  ["C01", "C02", "C03", "C04", "C05", "C07", "C08", "C09", "C10", "C11", "C12", "C13", "C14", "C15",
+                  ["C01", "C02", "C03", "C04", "C05", "C08", "C09", "C10", "C11", "C12", "C13", "C14", "C15",
                    "C16", "C17"]}
